@@ -27,7 +27,11 @@ def run(rep, tier, seed):
             p["o"]["driver"] = "ref" if p["o"]["driver"] == "est" else "est"
         return mc.probe(traces, ok, bump, "value") + mc.probe(traces, ok, ids, "ids") + mc.probe(traces, ok, drv, "driver")
     mc.judge(rep, cases, obs, probes, lambda c: {"rel": c["rel"], "unit": c["q"]["unit"], "all": c["q"]["all"], "fromref": c["fromref"]}, seed)
-    rep.rule = ("TLC enumerates reference/estimate lattice trajectories with DIFFERENT step patterns (so pairs_from_reference is observable) x "
+    from drivers import c15
+    c15.run_metric_pipeline(rep, tier, seed, "rpe")
+    rep.rule = ("[file pipeline of evo_rpe: TLC enumerates downsample x reference crop x time offset x alignment mode x n_to_align x projection "
+                "x relation x format over a 5-pose reference and a denser 9-pose estimate, expected stored values computed in TLA+ by "
+                "PipelineProps] " +"TLC enumerates reference/estimate lattice trajectories with DIFFERENT step patterns (so pairs_from_reference is observable) x "
                 "7 pose relations x delta in frames/metres/degrees x consecutive/all_pairs x pairs_from_reference; metrics.RPE is run with a "
                 "run-time wrapper recording which trajectory drove the pair selection and the pairs; MetricsProps!RPEVerdict judges the pairs "
                 "(PairsProps), one value per pair equal to the definition, end indices aligned with values, zero reference distances dropped "
